@@ -155,11 +155,50 @@ def SInvT (s : State) : Prop := CInv s.c s.s ∧ TInv s.c s.s
 theorem SInvT.init (full : Bool) (q : Nat) : SInvT (init full q) :=
   ⟨CInv.init full, by intro i hi; cases hi⟩
 
-theorem SInvT.step {s : State} (inv : SInvT s) (op : Op) : SInvT (Heights.step s op).1 := by
+/-- no op of the history is a decided message delivered during a store-write failure -/
+def NoStoreFail (ops : List Op) : Prop := ∀ op ∈ ops, ∀ h r root sg ok via, op ≠ .decidedSF h r root sg ok via
+
+theorem TInv.commits {s : State} (ci : CInv s.c s.s) (t : TInv s.c s.s) (root : Nat) (vc : Bool) :
+    TInv (commitsStep s root vc).1.c (commitsStep s root vc).1.s := by
+  rcases commitsStep_cases s root vc with ⟨h0, _⟩ | ⟨rh, i, _, hf, _, _, hc, hs⟩
+  · rw [h0]; exact t
+  · rw [hc, hs]
+    have hih := find_some_height hf
+    intro x hx hxh hxd
+    have hxh' : x.height = s.c.height := hxh
+    have hx' : x ∈ replaceInst { i with decided := true, commits := singles s.q root } s.c.insts := hx
+    show ∃ a : Stored, _ ∧ a.inst.height = s.c.height
+    rcases mem_replaceInst hx' with rfl | hxo
+    · -- the newly decided instance is AT the controller height: the save writes it as highest
+      have hrc : rh = s.c.height := by
+        have : ({ i with decided := true, commits := singles s.q root } : Inst).height = i.height := rfl
+        omega
+      have hfind : find (replaceInst { i with decided := true, commits := singles s.q root } s.c.insts) rh =
+          some { i with decided := true, commits := singles s.q root } :=
+        find_replaceInst_same (i' := { i with decided := true, commits := singles s.q root }) hf hih
+      refine ⟨_, saveFound_writes
+        (c := { s.c with insts := replaceInst { i with decided := true, commits := singles s.q root } s.c.insts }) hfind
+        (by show s.c.height ≤ rh; omega), ?_⟩
+      show i.height = s.c.height
+      omega
+    · obtain ⟨a, ha, hah⟩ := t x hxo hxh' hxd
+      rcases saveFound_highest
+          { s.c with insts := replaceInst { i with decided := true, commits := singles s.q root } s.c.insts } s.s rh
+          ⟨Gen.heights_FirstRound, root, List.range' 1 s.q⟩ with hu | ⟨hle, i', hf', hw⟩
+      · exact ⟨a, by rw [hu]; exact ha, hah⟩
+      · refine ⟨_, hw, ?_⟩
+        show i'.height = s.c.height
+        have h1 := find_some_height hf'
+        have h2 : s.c.height ≤ rh := hle
+        have h3 : rh ≤ s.c.height := hih ▸ ci.top.le i (find_some_mem hf)
+        omega
+
+theorem SInvT.step {s : State} (inv : SInvT s) (op : Op)
+    (hnf : ∀ h r root sg ok via, op ≠ .decidedSF h r root sg ok via) : SInvT (Heights.step s op).1 := by
   refine ⟨SInv.step inv.1 op, ?_⟩
   obtain ⟨ci, t⟩ := inv
-  rcases step_cs s op with ⟨hc, hs⟩ | ⟨slot, c', hst, hc, hs⟩ | ⟨h, m, ok, hc, hs⟩ | ⟨h, m, ok, hc, hs⟩ | ⟨h, hc, hs⟩ |
-    ⟨full, _, hc, hs⟩
+  rcases step_cs s op with ⟨hc, hs⟩ | ⟨slot, c', hst, hc, hs⟩ | ⟨h, m, ok, hc, hs⟩ | ⟨h, m, ok, hc, hs⟩ |
+    ⟨h, m, ok, hop, _, _⟩ | ⟨h, m, ok, hop, _, _⟩ | ⟨root, vc, hc, hs⟩ | ⟨h, hc, hs⟩ | ⟨full, _, hc, hs⟩
   · rw [hc, hs]; exact t
   · rw [hc, hs]; exact TInv.start ci hst
   · rw [hc, hs]; exact t.processMsg ci s.q h m ok
@@ -185,14 +224,20 @@ theorem SInvT.step {s : State} (inv : SInvT s) (op : Op) : SInvT (Heights.step s
         simp only [hq, if_true, compactAt_height]
         rw [he]
         exact (uponDecided_height_ge s.c s.s h m).1
+  · exact absurd hop (hnf _ _ _ _ _ _)
+  · exact absurd hop (hnf _ _ _ _ _ _)
+  · rw [hc, hs]; exact TInv.commits ci t root vc
   · rw [hc, hs]; exact t.compact h
   · rw [hc, hs]; exact TInv.load s.s full
 
-theorem SInvT.reach (full : Bool) (q : Nat) (ops : List Op) : SInvT (Heights.run (Heights.init full q) ops) := by
+theorem SInvT.reach (full : Bool) (q : Nat) (ops : List Op) (hnf : NoStoreFail ops) :
+    SInvT (Heights.run (Heights.init full q) ops) := by
   suffices h : ∀ s, SInvT s → SInvT (Heights.run s ops) from h _ (SInvT.init full q)
   induction ops with
   | nil => intro s hs; exact hs
-  | cons op ops ih => intro s hs; exact ih _ (hs.step op)
+  | cons op ops ih =>
+    intro s hs
+    exact ih (fun o ho => hnf o (List.mem_cons_of_mem _ ho)) _ (hs.step op (hnf op (by simp)))
 
 /-- a valid decided message at or above the controller height becomes (or already is) the stored highest, unless its
     instance is only reloaded from storage (full node, not in memory, in the historical store) -/
